@@ -30,7 +30,7 @@ package round
 //@ interface Session method Hash
 //@   modifies nothing
 //@   allocates
-//@   ensures result != nil
+//@   ensures result != nil && result.h != nil
 
 //@ interface Session method MessageContent
 //@   modifies nothing
